@@ -597,8 +597,14 @@ func writeEvidence(id string, cfg propCfg, tier string, seed uint64, tot *worker
 		"violations":  nviol,
 	}
 	b, _ := json.MarshalIndent(ev, "", " ")
-	os.MkdirAll(verif+"/evidence", 0o755)
-	if err := os.WriteFile(fmt.Sprintf("%s/evidence/%s.json", verif, id), b, 0o644); err != nil {
+	evDir := verif + "/evidence"
+	if r := os.Getenv("VERIF_REPO"); r != "" && r != "/repo" {
+		// development aid (sensitivity runs against a patched scratch copy): committed evidence only ever
+		// describes /repo itself
+		evDir = r + "/.verif-evidence"
+	}
+	os.MkdirAll(evDir, 0o755)
+	if err := os.WriteFile(fmt.Sprintf("%s/%s.json", evDir, id), b, 0o644); err != nil {
 		die2("write evidence: %v", err)
 	}
 }
